@@ -159,5 +159,12 @@ def get_ast(func):
     except (OSError, IOError):
         return None
     source = inspect.cleandoc('\n' + rawsource)
-    module = ast.parse(source)
-    return module.body[0]
+    try:
+        module = ast.parse(source)
+    except SyntaxError:
+        return None
+    node = module.body[0] if module.body else None
+    if not isinstance(node, (ast.FunctionDef, ast.AsyncFunctionDef)):
+        # eg. a lambda: its source lines are the statement it is part of
+        return None
+    return node
